@@ -2,6 +2,8 @@
  * spawn.c docmd() -> qmail-lspawn.c spawn()/nughde_get() child, with the privileged calls recorded.
  *
  * usage: c11_users <ntemplate-lines> <nrandom> <seed> <shard> <nshards>   |   c11_users -   (cases on stdin)
+ * Names (assign keys, wildcard prefixes, passwd accounts, probed local parts) range over ALL byte values except NUL, LF and
+ * (in users/assign) ':' — see tl8/probe_locals8 (seed-independent) and name_mode/name_tok8 (seeded).
  *
  * output lines (hex fields: lower-case hex, "-" = empty):
  *   R <code|c> <first-byte> <fixed>                     report() on exit code <code> (c = crashed)
@@ -356,7 +358,9 @@ static int unhex(const char *h, unsigned char *o) {
 static const char *DEFAULT_PW =
   "alias:7790:2108:/var/qmail/alias:0\n" "a:2001:201:/h/pa:0\n" "a-b:2002:202:/h/pab:0\n" "r:0:0:/root:0\n"
   "b:2003:203:/h/pb:0\n" "c:2004:204:/h/pc:0\n" "ab:2005:205:/h/nohome:0\n" "x:2006:206:/h/px:0\n"
-  "@/var/qmail/alias:0:7790\n" "@/h/pa:0:2001\n" "@/h/pab:0:2002\n" "@/root:0:0\n" "@/h/pb:0:2001\n" "@/h/pc:5:2004\n" "@/h/px:0:2006\n";
+  "jos\351:2007:207:/h/pj:0\n"                                         /* an account with an 8-bit (Latin-1) name */
+  "@/var/qmail/alias:0:7790\n" "@/h/pa:0:2001\n" "@/h/pab:0:2002\n" "@/root:0:0\n" "@/h/pb:0:2001\n" "@/h/pc:5:2004\n" "@/h/px:0:2006\n"
+  "@/h/pj:0:2007\n";
 
 static const char *tl[] = {
   "=a:ua:1001:101:/h/a:::", "=A:uA:1002:102:/h/A:-:x:", "+a:wa:1003:103:/h/wa:-:p:", "+a-:wad:1004:104:/h/wad:-::",
@@ -369,6 +373,19 @@ static const char *probe_locals[] = { "a", "A", "ab", "aB", "a-", "a-b", "A-B", 
                                       "x-y", "a@b", "ba" };
 #define NPL (sizeof probe_locals / sizeof probe_locals[0])
 
+/* The whole byte range in names (qmail is 8-bit clean; case folding is ASCII-only): UTF-8 and Latin-1 sequences, 0x7f, 0x01, 0xff, 0x80,
+ * bytes that are an ASCII letter + 0x80 (0xc1 = 'A'|0x80, 0xe1 = 'a'|0x80), upper-case ASCII next to 8-bit bytes; exact and wildcard. */
+static const char *tl8[] = {
+  "=m\303\274ller:mue:1101:111:/h/mue:::", "+m\303\274ller-:muew:1102:112:/h/muew:-::", "+jos\351-:jose:1103:113:/h/jose:-:\303\251-:",
+  "=M\303\234LLER:MUE:1104:114:/h/MUE:::", "+\377:wff:1105:115:/h/wff:-:p:", "=\177\001:ctl:1106:116:/h/ctl:::",
+  "+\301:whi:1107:117:/h/whi:-::", "+:wall:1005:105:/h/all:-::", "=\351:root8:0:0:/root:::", "+M\303\274:wmu:1108:118:/h/wm\374:::",
+  "=\200\377\200:hi:1109:119:/h/hi:::" };
+#define NTL8 (sizeof tl8 / sizeof tl8[0])
+static const char *probe_locals8[] = { "m\303\274ller", "M\303\274LLER", "M\303\234LLER", "m\303\234ller", "m\303\274ller-news", "M\303\274Ller-News",
+                                       "jos\351-x", "JOS\351-X", "jos\311-x", "jos\351", "\377", "\377x", "\377\377", "\177\001", "\177", "\301b", "\341b", "Ab",
+                                       "\351", "\311", "m\303", "m\303\274", "\200\377\200", "\200\377", "plain", "\303\274-\303\274" };
+#define NPL8 (sizeof probe_locals8 / sizeof probe_locals8[0])
+
 static void S_local(int flt, const char *local, size_t ln, const char *domain) {
   unsigned char r[4096]; size_t n = 0;
   if (ln > 3000) ln = 3000;
@@ -377,8 +394,22 @@ static void S_local(int flt, const char *local, size_t ln, const char *domain) {
 }
 
 static const char name_alpha[] = "aaabbc-A-B.x+_";
+/* name_mode 1: names are sequences of these tokens (at most 3 bytes each), else of the ASCII alphabet above */
+static int name_mode;
+static const char *name_tok8[] = { "a", "a", "b", "-", "-", "A", "B", "\303\274" /* u umlaut, UTF-8 */, "\303\234" /* U umlaut */, "\351" /* e acute, Latin-1 */,
+                                   "\311" /* E acute */, "\377", "\200", "\177", "\001", "\301" /* 'A'|0x80 */, "\341" /* 'a'|0x80 */, "\342\202\254" /* euro */,
+                                   "\240", "\337" };
+#define NTOK8 (sizeof name_tok8 / sizeof name_tok8[0])
 static size_t gen_name(char *o, int maxlen) {
   size_t n = h_below(maxlen + 1);
+  if (name_mode && h_below(4)) {          /* in an 8-bit table three names out of four are 8-bit, the others ASCII */
+    size_t l = 0;
+    for (size_t i = 0; i < n; i++) {
+      if (h_below(12) == 0) { unsigned char c = 1 + h_below(255); if (c == ':' || c == '\n') c = 0x80 | c; o[l++] = (char)c; continue; }   /* any byte */
+      const char *t = name_tok8[h_below(NTOK8)]; size_t tn = strlen(t); memcpy(o + l, t, tn); l += tn;
+    }
+    o[l] = 0; return l;
+  }
   for (size_t i = 0; i < n; i++) o[i] = name_alpha[h_below(sizeof name_alpha - 1)];
   o[n] = 0; return n;
 }
@@ -387,6 +418,7 @@ static size_t gen_name(char *o, int maxlen) {
 static char gnames[4096][48]; static int ngnames;
 static void gen_assign(hbuf *a, int nent, int clean) {
   hbuf_reset(a); ngnames = 0;
+  name_mode = h_below(3) == 0;              /* every third table has names over the whole byte range */
   for (int i = 0; i < nent; i++) {
     char nm[48], line[256];
     size_t nl = gen_name(nm, nent > 100 ? 8 : 4);
@@ -395,14 +427,15 @@ static void gen_assign(hbuf *a, int nent, int clean) {
     if (ngnames < 4096) strcpy(gnames[ngnames++], nm);
     int kind = h_below(20);
     unsigned uid = h_below(12) == 0 ? 0 : 1000 + h_below(50), gid = 100 + h_below(5);
-    const char *dash = h_below(2) ? "-" : "", *pre = (const char *[]){ "", "", "p", "x-" }[h_below(4)];
+    const char *dash = h_below(2) ? "-" : "", *pre = (const char *[]){ "", "", "p", "x-", "\303\251", "\377-", "\351" }[h_below(name_mode ? 7 : 4)];
+    const char *up = name_mode && h_below(2) ? "\303\274" : "";          /* 8-bit bytes in the user name and home directory as well */
     if (!clean && kind == 0) snprintf(line, sizeof line, "%s", nm);                                /* no colon */
     else if (!clean && kind == 1 && h_below(2)) snprintf(line, sizeof line, "=%s:u%d:%u:%u:/h/u%d", nm, i, uid, gid, i); /* too few colons */
     else if (!clean && kind == 1) snprintf(line, sizeof line, "%c%s:u%d:%u:%u:/h/u%d:%s:%s", "=+"[h_below(2)], nm, i, uid, gid, i, dash, pre); /* exactly one colon short */
     else if (!clean && kind == 2) snprintf(line, sizeof line, ":u%d:%u:%u:/h/u%d:%s:%s:", i, uid, gid, i, dash, pre);
     else if (!clean && kind == 3) snprintf(line, sizeof line, "%c%s:u%d:%u:%u:/h/u%d:%s:%s:", "#x-"[h_below(3)], nm, i, uid, gid, i, dash, pre);
-    else if (kind < 11) snprintf(line, sizeof line, "=%s:u%d:%u:%u:/h/u%d:%s:%s:", nm, i, uid, gid, i, dash, pre);
-    else snprintf(line, sizeof line, "+%s:w%d:%u:%u:/h/w%d:%s:%s:%s", nm, i, uid, gid, i, dash, pre, h_below(8) ? "" : "trailing:junk");
+    else if (kind < 11) snprintf(line, sizeof line, "=%s:%su%d:%u:%u:/h/%su%d:%s:%s:", nm, up, i, uid, gid, up, i, dash, pre);
+    else snprintf(line, sizeof line, "+%s:%sw%d:%u:%u:/h/%sw%d:%s:%s:%s", nm, up, i, uid, gid, up, i, dash, pre, h_below(8) ? "" : "trailing:junk");
     hbuf_add(a, line, strlen(line));
     if (!clean && h_below(400) == 0) { hbuf_add(a, "\0", 1); }
     hbuf_add(a, "\n", 1);
@@ -419,14 +452,18 @@ static void probes_for_names(int flt_every) {
   for (int i = 0; i < ngnames && i < 40; i++) {
     const char *nm = gnames[h_below(ngnames)];
     size_t l = strlen(nm);
-    int v = h_below(8);
+    int v = h_below(10);
     if (v == 0) snprintf(buf, sizeof buf, "%s", nm);
-    else if (v == 1) snprintf(buf, sizeof buf, "%s-%s", nm, "ext");
+    else if (v == 1) snprintf(buf, sizeof buf, "%s-%s", nm, h_below(3) ? "ext" : "Ex\303\234\351");
     else if (v == 2) snprintf(buf, sizeof buf, "%sx", nm);
     else if (v == 3) { snprintf(buf, sizeof buf, "%s", nm); if (l) buf[l - 1] = 0; }
     else if (v == 4) { snprintf(buf, sizeof buf, "%s", nm); for (char *p = buf; *p; p++) if (*p >= 'a' && *p <= 'z') *p -= 32; }
     else if (v == 5) { snprintf(buf, sizeof buf, "%s%s", nm, gnames[h_below(ngnames)]); }
     else if (v == 6) { snprintf(buf, sizeof buf, "%s", nm); for (char *p = buf; *p; p++) if (h_below(2)) { if (*p >= 'a' && *p <= 'z') *p -= 32; else if (*p >= 'A' && *p <= 'Z') *p += 32; } }
+    /* ASCII-only folding: the Latin-1 "other case" (bit 5 of a byte >= 0xc0) is a DIFFERENT name */
+    else if (v == 8) { snprintf(buf, sizeof buf, "%s", nm); for (char *p = buf; *p; p++) if ((unsigned char)*p >= 0xc0) *p ^= 0x20; }
+    /* bit 7 of one byte toggled (7-bit <-> 8-bit): a different name */
+    else if (v == 9 && l) { snprintf(buf, sizeof buf, "%s", nm); size_t j = h_below(l); unsigned char c = (unsigned char)buf[j] ^ 0x80; if (c && c != '\n') buf[j] = (char)c; }
     else gen_name(buf, 6);
     int flt = (flt_every && h_below(flt_every) == 0) ? 1 + h_below(F_NFAULT - 1) : 0;
     S_local(flt, buf, strlen(buf), h_below(6) ? "d.example" : "x@y.example");
@@ -456,6 +493,7 @@ static void gen_pw(hbuf *t) {
   else hbuf_add(t, "alias:7790:2108:/var/qmail/alias:0\n", 35);
   int n = 1 + h_below(10);
   ngnames = 0;
+  name_mode = h_below(4) == 0;              /* every fourth passwd db has account names with 8-bit bytes */
   for (int i = 0; i < n; i++) {
     size_t l;
     if (h_below(10) == 0) { l = 29 + h_below(6); for (size_t j = 0; j < l; j++) nm[j] = "ab-"[h_below(3)]; nm[l] = 0; }
@@ -475,7 +513,7 @@ static void getpw_probes(int n, int with_spawn) {
   char buf[128];
   for (int i = 0; i < n; i++) {
     const char *nm = ngnames ? gnames[h_below(ngnames)] : "a";
-    int v = h_below(10);
+    int v = h_below(11);
     if (v == 0) snprintf(buf, sizeof buf, "%s", nm);
     else if (v == 1) snprintf(buf, sizeof buf, "%s-ext", nm);
     else if (v == 2) snprintf(buf, sizeof buf, "%s-Ext-more", nm);
@@ -485,6 +523,7 @@ static void getpw_probes(int n, int with_spawn) {
     else if (v == 6) { size_t l = 28 + h_below(8); for (size_t j = 0; j < l; j++) buf[j] = "ab-"[h_below(3)]; buf[l] = 0; }
     else if (v == 7) { size_t l = 28 + h_below(8); for (size_t j = 0; j < l; j++) buf[j] = "ab-"[h_below(3)]; snprintf(buf + l, sizeof buf - l, "-%s", nm); }
     else if (v == 8) snprintf(buf, sizeof buf, "%s-", nm);
+    else if (v == 10) { snprintf(buf, sizeof buf, "%s-\351X", nm); for (char *p = buf; *p; p++) if ((unsigned char)*p >= 0xc0 && h_below(2)) *p ^= 0x20; }   /* Latin-1 "case": not folded */
     else gen_name(buf, 6);
     do_G((unsigned char *)buf, strlen(buf));
     if (with_spawn && i % with_spawn == 0) S_local(h_below(6) ? 0 : 1 + h_below(F_NFAULT - 1), buf, strlen(buf), "d.example");
@@ -589,6 +628,25 @@ int main(int argc, char **argv) {
         if (!have_cdb && p % 4) continue;        /* no table: every lookup forks qmail-getpw; sample */
         if (nl == ntl && ntl >= 3 && (id + p) % 3) continue;
         S_local(flt, probe_locals[p], strlen(probe_locals[p]), p % 5 ? "d.example" : "x@y.example");
+      }
+    }
+  }
+  /* (1b) the same over the 8-bit template set (seed-independent): every table of up to min(<ntl>,2) lines, every 8-bit probe through
+   * cdb_seek (exact and wildcard form of the key) and through the delivery child */
+  for (int nl = 0; nl <= (ntl < 2 ? ntl : 2); nl++) {
+    uint64_t total = 1; for (int i = 0; i < nl; i++) total *= NTL8;
+    for (uint64_t k = 0; k < total; k++, id++) {
+      if ((int)(id % nshards) != shard) continue;
+      hbuf_reset(&a); uint64_t v = k;
+      for (int i = 0; i < nl; i++) { const char *s = tl8[v % NTL8]; v /= NTL8; hbuf_add(&a, s, strlen(s)); hbuf_add(&a, "\n", 1); }
+      hbuf_add(&a, ".\n", 2);
+      do_N(a.p, a.n);
+      for (unsigned p = 0; p < NPL8; p++) {
+        const char *pl = probe_locals8[p]; size_t l = strlen(pl); unsigned char key[64];
+        key[0] = '!'; for (size_t j = 0; j < l; j++) key[1 + j] = (pl[j] >= 'A' && pl[j] <= 'Z') ? pl[j] + 32 : pl[j];
+        key[1 + l] = 0; do_K(key, l + 2); do_K(key, l + 1);
+        int flt = ((id + p) % 9 == 0) ? 1 + (int)((id / 9 + p) % (F_NFAULT - 1)) : 0;
+        S_local(flt, pl, l, p % 5 ? "d.example" : "x@y.example");
       }
     }
   }
